@@ -94,23 +94,54 @@ impl Art {
 }
 
 impl Lab {
+    // The alternative circuits are built up front, on the main thread (`prepare`): building one lazily from inside the
+    // cell pool would hold the cell's lock across nested rayon work, and a stolen cell needing the same circuit would
+    // wait for its own stack.
     fn priv2(&self) -> &VData {
-        self.priv2.get_or_init(|| canon::build_priv(wormhole_private_batch_circuit_config(), &self.canon.leaf, 2).expect("private batch for 2 leaves"))
+        self.priv2.get().expect("priv2 prepared")
     }
     fn pub21(&self) -> &VData {
-        self.pub21.get_or_init(|| canon::build_pub(wormhole_public_batch_circuit_config(), &self.canon.priv1, 2, 1).expect("public batch 2x1"))
+        self.pub21.get().expect("pub21 prepared")
     }
     fn pub12(&self) -> &VData {
-        self.pub12.get_or_init(|| canon::build_pub(wormhole_public_batch_circuit_config(), self.priv2(), 1, 2).expect("public batch 1x2"))
+        self.pub12.get().expect("pub12 prepared")
     }
     fn other_config(&self, slot: &str) -> &VData {
         if slot.starts_with("leaf") {
-            self.leaf_cfg2.get_or_init(|| canon::build_leaf(CircuitConfig::standard_recursion_zk_config()).expect("leaf under the zk config"))
+            self.leaf_cfg2.get().expect("leaf other config prepared")
         } else if slot.starts_with("priv") {
-            self.priv_cfg2.get_or_init(|| canon::build_priv(CircuitConfig::standard_recursion_config(), &self.canon.leaf, 1).expect("private batch under the non-zk config"))
+            self.priv_cfg2.get().expect("priv other config prepared")
         } else {
-            self.pub_cfg2.get_or_init(|| canon::build_pub(CircuitConfig::standard_recursion_zk_config(), &self.canon.priv1, 1, 1).expect("public batch under the zk config"))
+            self.pub_cfg2.get().expect("pub other config prepared")
         }
+    }
+
+    /// build, sequentially and before any cell runs, every alternative circuit the cases need
+    fn prepare(&self, cases: &[Value]) -> Result<()> {
+        let any = |f: &dyn Fn(&Value) -> bool| cases.iter().any(|c| f(c));
+        let slot_is = |c: &Value, p: &str| c["slot"].as_str().unwrap_or("").starts_with(p);
+        let class_is = |c: &Value, k: &str| c["class"].as_str() == Some(k);
+        let odd = |c: &Value| c["rep"].as_u64().unwrap_or(0) % 2 == 1;
+        let need_pub12 = any(&|c| class_is(c, "othershape") && slot_is(c, "pub") && odd(c));
+        if need_pub12 || any(&|c| c["cfg"].as_str() == Some("other") || (class_is(c, "othershape") && slot_is(c, "priv"))) {
+            let _ = self.priv2.set(canon::build_priv(wormhole_private_batch_circuit_config(), &self.canon.leaf, 2)?);
+        }
+        if any(&|c| class_is(c, "othershape") && slot_is(c, "pub") && !odd(c)) {
+            let _ = self.pub21.set(canon::build_pub(wormhole_public_batch_circuit_config(), &self.canon.priv1, 2, 1)?);
+        }
+        if need_pub12 {
+            let _ = self.pub12.set(canon::build_pub(wormhole_public_batch_circuit_config(), self.priv2(), 1, 2)?);
+        }
+        if any(&|c| class_is(c, "otherconfig") && slot_is(c, "leaf")) {
+            let _ = self.leaf_cfg2.set(canon::build_leaf(CircuitConfig::standard_recursion_zk_config())?);
+        }
+        if any(&|c| class_is(c, "otherconfig") && slot_is(c, "priv")) {
+            let _ = self.priv_cfg2.set(canon::build_priv(CircuitConfig::standard_recursion_config(), &self.canon.leaf, 1)?);
+        }
+        if any(&|c| class_is(c, "otherconfig") && slot_is(c, "pub")) {
+            let _ = self.pub_cfg2.set(canon::build_pub(CircuitConfig::standard_recursion_zk_config(), &self.canon.priv1, 1, 1)?);
+        }
+        Ok(())
     }
     fn part(v: &VData, slot: &str) -> Vec<u8> {
         if slot.ends_with("_common") { common_bytes(v) } else { vo_bytes(v) }
@@ -237,6 +268,11 @@ impl Lab {
 
         let want_priv = if n_cfg == 2 { self.priv2() } else { &canon.priv1 };
         let addr = BytesDigest::try_from([3u8; 32]).map_err(|e| anyhow!("{e}"))?;
+        // markers visible to `strace -e trace=openat` (thorough tier): what is opened between them is opened by the loader
+        let marks = std::env::var("VH_ART_MARKS").is_ok();
+        if marks {
+            let _ = fs::File::open(format!("/vh-art-mark/begin-{idx}"));
+        }
         let snap = if metered { Some(meter::start()) } else { None };
         let t0 = std::time::Instant::now();
         // Ok(Some(held)) = accepted, `held`: what the loader now holds / wrote is the canonical data for the shape
@@ -266,6 +302,9 @@ impl Lab {
         }));
         let ms = t0.elapsed().as_millis() as u64;
         let meter = snap.map(|s| meter::stop(s).json());
+        if marks {
+            let _ = fs::File::open(format!("/vh-art-mark/end-{idx}"));
+        }
         // planted prover files: did their access time move? (then: does it move when the harness reads one itself?)
         let mut planted = Value::Null;
         if extras && extras_mode == "files" {
@@ -317,6 +356,7 @@ pub fn replay(root: &str, inp: &str, outp: &str, seed: u64) -> Result<()> {
     let _ = fs::remove_dir_all(&cells);
     fs::create_dir_all(&cells)?;
     let lab = Lab { canon, cells, seed, priv2: OnceLock::new(), pub21: OnceLock::new(), pub12: OnceLock::new(), leaf_cfg2: OnceLock::new(), priv_cfg2: OnceLock::new(), pub_cfg2: OnceLock::new() };
+    lab.prepare(&cases)?;
     let out = Mutex::new(fs::File::create(outp)?);
     writeln!(out.lock().unwrap(), "{}", json!({"setup": true, "setup_ms": t.elapsed().as_millis() as u64, "canon_generated_ms": lab.canon.gen_ms as u64}))?;
     let emit = |row: Value| {
